@@ -60,6 +60,11 @@ def run(ctx):
         lops, _ = C03.gen_ops(ctx, scale)
         dis["lex"] = common.run_stream(ctx, "lex", lops[: 3000 * scale])
         dis["tok"] = common.run_stream(ctx, "tok", robust.tok_ops(ctx, 1500 * scale, bcs), cwd=wd)
+        # the inheritance walks (method lookup, protected check) on generated graphs with cycles: the models terminate by
+        # construction (structural recursion on fuel), the real walks must answer within the driver's deadline and agree
+        from . import C16
+        dis["lookup"] = common.run_stream(ctx, "lookup", [C16.gen_lookup(ctx.rng) for _ in range(2000 * scale)])
+        dis["ancestor"] = common.run_stream(ctx, "ancestor", [C16.gen_ancestor(ctx.rng) for _ in range(2000 * scale)])
     regress = robust.replay_findings(ctx, [])
     n = ctx.pick(1800, 18000)
     texts, kinds = robust.gen_texts(ctx, n)
@@ -88,7 +93,7 @@ def evidence(ctx):
     ctx.assumptions += ["a client loop that hands a token back (Unget) in every iteration, and loops that never touch the token layer, are bounded only by the reviewed loop table and the black-box sweep",
                         "the 500 ms watchdog is wall-clock: under load it fires spuriously, so a hang counts only when it persists on a solitary re-run"]
     common.write_evidence(ctx, LEVEL, RULE, trusted=common.BASE_TRUST + [
-        "modelled: lexer.go, reader.go, parser/read.go incl. the end-of-input budget; inheritance walks are exercised black-box with cyclic programs",
+        "modelled: lexer.go, reader.go, parser/read.go incl. the end-of-input budget; the inheritance walks GetMethodT/getParentMethodT and isAncestorNode (streams lookup / ancestor over graphs with cycles) and black-box with cyclic programs",
         "not modelled: evaluator control flow (validated black-box); scheduler/GC timing"])
 
 
